@@ -24,7 +24,6 @@ Proof. split; [|intros ->; apply N.eqb_refl]. destruct a, b; vm_compute; congrue
 Section PROOFS.
 Variable pt_ok : bytes -> bool.
 Variable maxvec : N.
-Variables cap_txin cap_txout : N.
 Variable H : bytes -> bytes.
 Variable Htag : bytes -> bytes.
 
@@ -36,11 +35,11 @@ Notation segwit_cache_get := (segwit_cache_get pt_ok maxvec H).
 Notation taproot_cache_get := (taproot_cache_get pt_ok maxvec H).
 Notation taproot_encode := (taproot_encode pt_ok maxvec H).
 Notation segwit_encode := (segwit_encode pt_ok maxvec H).
-Notation legacy_encode := (legacy_encode pt_ok maxvec cap_txin cap_txout).
-Notation query := (query pt_ok maxvec cap_txin cap_txout H Htag).
-Notation step := (step pt_ok maxvec cap_txin cap_txout H Htag).
-Notation run := (run pt_ok maxvec cap_txin cap_txout H Htag).
-Notation fresh_answers := (fresh_answers pt_ok maxvec cap_txin cap_txout H Htag).
+Notation legacy_encode := (legacy_encode pt_ok maxvec).
+Notation query := (query pt_ok maxvec H Htag).
+Notation step := (step pt_ok maxvec H Htag).
+Notation run := (run pt_ok maxvec H Htag).
+Notation fresh_answers := (fresh_answers pt_ok maxvec H Htag).
 
 (* ---------- invariant: every filled cache holds the value recomputed from the transaction and the spent outputs ---------- *)
 Definition Good (t : tx) (spent : list txout) (s : state) : Prop :=
